@@ -9,6 +9,7 @@ import FlacModel.Model.Decode
 import FlacModel.Spec.Rfc
 import FlacModel.Proofs.Machine
 import FlacModel.Proofs.Dot
+import FlacModel.Proofs.Layout
 import FlacModel.Model.Md5
 
 namespace Flac.C03
@@ -79,31 +80,6 @@ theorem unfold_is_zigzag (k msb lsb : Nat) (hl : lsb < 2 ^ k) (hfit : msb * 2 ^ 
   · simp [hodd]
   · simp [hodd]
 
-theorem rchunk_rfc (c n order : Nat) (hc : order < c) (hn : 1 ≤ n) :
-    rchunkSizes (c * n - order) c = (c - order) :: List.replicate (n - 1) c := by
-  have hcpos : 0 < c := by omega
-  have hsplit : c * n = c * (n - 1) + c := by
-    have : n = (n - 1) + 1 := by omega
-    conv => lhs; rw [this, Nat.mul_add, Nat.mul_one]
-  unfold rchunkSizes
-  by_cases ho : order = 0
-  · subst ho
-    have h0 : (c * n - 0) % c = 0 := by simp
-    have hd : (c * n - 0) / c = n := by simp [Nat.mul_div_cancel_left n hcpos]
-    rw [h0, hd]
-    have : n = (n - 1) + 1 := by omega
-    simp only [if_true, List.nil_append, Nat.sub_zero]
-    conv => lhs; rw [this, List.replicate_succ]
-  · have e : c * n - order = (c - order) + (n - 1) * c := by
-      rw [hsplit, Nat.mul_comm c (n - 1)]; omega
-    have hmod : (c * n - order) % c = c - order := by
-      rw [e, Nat.add_mul_mod_self_right]; exact Nat.mod_eq_of_lt (by omega)
-    have hdivv : (c * n - order) / c = n - 1 := by
-      rw [e, Nat.add_mul_div_right _ _ hcpos, Nat.div_eq_of_lt (by omega)]; omega
-    rw [hmod, hdivv]
-    have : ¬ c - order = 0 := by omega
-    simp [this]
-
 /-- the decoder's partition layout is the RFC's whenever the RFC accepts the partition order -/
 theorem decLayout_eq_rfc (bs order po : Nat) (sizes : List Nat)
     (h : Spec.rfcLayout bs order po = .ok sizes) : decLayout bs order po = .ok sizes := by
@@ -112,8 +88,7 @@ theorem decLayout_eq_rfc (bs order po : Nat) (sizes : List Nat)
   · by_cases hgt : bs / 2 ^ po ≤ order
     · simp [hdiv, hgt] at h
     · simp only [hdiv, ne_eq, not_true_eq_false, if_false, hgt, Except.ok.injEq] at h
-      have hbs : bs = bs / 2 ^ po * 2 ^ po := by
-        have := Nat.div_add_mod bs (2 ^ po); rw [hdiv] at this; rw [Nat.mul_comm] at this; omega
+      have hbs := div_mul_of_mod_zero bs (2 ^ po) hdiv
       have hr := rchunk_rfc (bs / 2 ^ po) (2 ^ po) order (by omega) (Nat.two_pow_pos po)
       rw [← hbs] at hr
       have hc0 : ¬ bs / 2 ^ po = 0 := by omega
@@ -121,8 +96,39 @@ theorem decLayout_eq_rfc (bs order po : Nat) (sizes : List Nat)
         have := Nat.two_pow_pos po
         simp; omega
       rw [h] at hr hlen
-      simp only [decLayout, hc0, if_false, hr, hlen, ne_eq, not_true_eq_false]
+      have hguard : (decLayoutRfc && !(bs % 2 ^ po == 0 && decide (bs / 2 ^ po > order))) = false := by
+        have : bs / 2 ^ po > order := by omega
+        simp [hdiv, this]
+      simp only [decLayout, hguard, Bool.false_eq_true, if_false, hc0, hr, hlen, ne_eq, not_true_eq_false]
   · simp [hdiv] at h
+
+/-- …and conversely (with the rule now enforced by `read_block`): whatever the decoder's layout
+    accepts, the RFC accepts, with the same partition sizes -/
+theorem decLayout_sound (bs order po : Nat) (sizes : List Nat)
+    (h : decLayout bs order po = .ok sizes) : Spec.rfcLayout bs order po = .ok sizes := by
+  have hflag : decLayoutRfc = true := rfl
+  simp only [decLayout, hflag, Bool.true_and] at h
+  by_cases hok : (bs % 2 ^ po == 0 && decide (bs / 2 ^ po > order)) = true
+  · simp only [Bool.and_eq_true, beq_iff_eq, decide_eq_true_eq] at hok
+    obtain ⟨hdiv, hgt⟩ := hok
+    have hguard : (!(bs % 2 ^ po == 0 && decide (bs / 2 ^ po > order))) = false := by simp [hdiv, hgt]
+    simp only [hguard, Bool.false_eq_true, if_false] at h
+    have hc0 : ¬ bs / 2 ^ po = 0 := by omega
+    simp only [hc0, if_false] at h
+    split at h
+    · simp at h
+    · simp only [Except.ok.injEq] at h
+      have hbs := div_mul_of_mod_zero bs (2 ^ po) hdiv
+      have hr := rchunk_rfc (bs / 2 ^ po) (2 ^ po) order (by omega) (Nat.two_pow_pos po)
+      rw [← hbs] at hr
+      have : ¬ bs / 2 ^ po ≤ order := by omega
+      simp only [Spec.rfcLayout, hdiv, ne_eq, not_true_eq_false, if_false, this]
+      rw [← h, hr]
+  · have : (!(bs % 2 ^ po == 0 && decide (bs / 2 ^ po > order))) = true := by
+      cases hb : (bs % 2 ^ po == 0 && decide (bs / 2 ^ po > order)) with
+      | true => exact absurd hb hok
+      | false => rfl
+    simp [this] at h
 
 /-! ### stereo reconstruction = RFC formulas when the outputs fit (depth ≤ 31) -/
 
